@@ -16,7 +16,7 @@ def run(ctx):
     if not vc.prepare(ctx, 'C16'):
         return rep.finish({'evaluations': 0, 'distinct_nontrivial': 0, 'rule': 'harness did not build', 'samples': []}, [])
     quick = ctx.tier == 'quick'
-    n = 500 if quick else 8000
+    n = 1500 if quick else 8000
     g = vfsgen.VfsGen(ctx.rng.fork('vfs'))
     cases = []
     for i in range(n):
@@ -126,7 +126,7 @@ def run(ctx):
                 rep.violation('oracle', {'property': 'C16', 'kind': 'resolution', 'seed': ctx.seed, 'case': c['id'], 'mappings': c['maps'],
                                          'files': sorted(c['files']), 'difference': bad, 'line': c['line'][:9000]})
     cov = {'evaluations': len(cases), 'requests': n_req, 'distinct_nontrivial': len(distinct),
-           'rule': 'directory trees (six directories, up to four file names each) created on disk, one to four mappings of physical directories to virtual prefixes (nested and overlapping prefixes, several roots per prefix, backslash and trailing-slash spellings, the root prefix), 6-13 requests each: existing files, missing files, traversal attempts (.. in front of, inside and behind the mapped prefix, with backslashes, into an unmapped sibling directory, to a file outside all roots, to /etc/passwd), messy spellings (doubled separators, backslashes, surrounding blanks, ./, missing leading slash, trailing slash, other case), absolute physical paths inside and outside the roots, paths relative to a current file; through fileio.get_info and through loadFile, preprocessFile, execVM and #include; oracle: an answer is an existing file below a mapped directory; clean absolute requests resolve exactly as the rule says (deepest mapped prefix, first root holding the file); every operator acts on exactly the file get_info resolves the same request to; the Lean model must give the same answer (physical and virtual path) to every get_info request',
+           'rule': 'directory trees (six directories, up to four file names each) created on disk, one to four mappings of physical directories to virtual prefixes (nested and overlapping prefixes, several roots per prefix, backslash and trailing-slash spellings, the root prefix), 6-13 requests each: existing files, missing files, traversal attempts (.. in front of, inside and behind the mapped prefix, with backslashes, into an unmapped sibling directory, to a file outside all roots, to /etc/passwd), messy spellings (doubled separators, backslashes, surrounding blanks, ./, missing leading slash, trailing slash, other case), absolute physical paths inside and outside the roots, paths relative to a current file; unmapped sibling directories whose names extend the name of a mapped directory (absolute and ../ requests into them); nested prefixes whose inner mapping hides a directory of the outer root (requests for files that exist only there); one run whose includes in two directories spell the same relative name; through fileio.get_info and through loadFile, preprocessFile, execVM and #include; oracle: an answer is an existing file below a mapped directory; clean absolute requests resolve exactly as the rule says (deepest mapped prefix, first root holding the file); every operator acts on exactly the file get_info resolves the same request to; the Lean model must give the same answer (physical and virtual path) to every get_info request',
            'samples': samples, 'oracle_failures': n_or, 'model_mismatches': n_mm, 'requests_by_kind': kinds, 'requests_resolved': n_found,
            'clean_requests_checked_against_the_rule': n_clean, 'generator_counts': g.stats}
     return rep.finish(cov, ['symbolic links are not exercised: "below a mapped directory" is lexical, as in the property',
